@@ -1,12 +1,21 @@
-"""'Confusable' tasks for C06: tasks whose parameters are ==-equal in Python (1 == True == 1.0,
+"""'Confusable' tasks for C06 (also run by C01 / C03): tasks whose parameters are ==-equal in Python (1 == True == 1.0,
 0 == False == 0.0; a member of a str/int-mixin enum == the member of another such enum with the same value == the bare value; also inside tuples / dicts / nested tasks) but are different tasks: they serialise
-differently, have different cache keys, and run() returns a string that reveals the parameter types."""
+differently, have different cache keys, and run() returns a string that reveals the parameter types.
+
+Two further kinds of confusable pairs (not ==-equal, but easily identified by a key / serialisation helper):
+* members of SAME-NAMED ENUM CLASSES: `Variant` at module level, `ModelA.Variant` / `ModelB.Variant` nested in holder
+  classes of this module (same `__name__`, different `__qualname__`), and `conftasks2.Variant` /
+  `conftasks2.ModelA.Variant` (same qualified name, other module) - with equal member names and values;
+* SAME-QUALNAME TASK CLASSES OF TWO MODULES with equal parameter values: `conftasks.Describe(value=v)` vs
+  `conftasks2.Describe(value=v)` (`InModule` variants); run() of the `conftasks2` classes reveals the module."""
+import sys
 from enum import Enum, IntEnum, StrEnum
 from typing import Any
 
 import labtech
 from frozendict import frozendict
 
+import conftasks2
 from histtasks import RecJson, RecPickle, log_line
 
 
@@ -30,15 +39,52 @@ class Width(int, Enum):
     WIDE = 2
 
 
-def reveal(v):
+class Variant(Enum):
+    SMALL = 1
+    LARGE = 2
+
+
+class ModelA:
+    class Variant(Enum):
+        SMALL = 1
+        LARGE = 2
+
+
+class ModelB:
+    class Variant(Enum):
+        SMALL = 1
+        LARGE = 2
+
+
+class InModule:
+    """variant of the 'task-module' group: the same constructor call on the same-named class of `module`"""
+
+    def __init__(self, module, value):
+        self.module, self.value = module, value
+
+    def __repr__(self):
+        return f'<classes of module {self.module}, parameter {self.value!r}>'
+
+
+def label(v):
+    """unambiguous text for a variant (repr of an enum member names neither its module nor its holder class)"""
+    if isinstance(v, Enum):
+        return f'{type(v).__module__}.{type(v).__qualname__}.{v.name}'
+    return repr(v)
+
+
+def reveal(v, canon=False):
+    """type-revealing text of a parameter value (`canon`: dict items in sorted key order, for comparisons that
+    must not depend on insertion order)"""
     if isinstance(v, Enum):        # before the scalar case: members of mixin enums ARE str / int instances
-        return f'{type(v).__name__}.{v.name}'
+        return f'{type(v).__module__}.{type(v).__qualname__}.{v.name}'
     if isinstance(v, (tuple, list)):
-        return '(' + ','.join(reveal(x) for x in v) + ')'
+        return '(' + ','.join(reveal(x, canon) for x in v) + ')'
     if isinstance(v, (dict, frozendict)):
-        return '{' + ','.join(f'{k}={reveal(x)}' for k, x in v.items()) + '}'
+        items = sorted(v.items()) if canon else v.items()
+        return '{' + ','.join(f'{k}={reveal(x, canon)}' for k, x in items) + '}'
     if labtech.is_task(v):
-        return f'{type(v).__name__}<{reveal(v.value)}>'
+        return f'{type(v).__module__}.{type(v).__name__}<{reveal(v.value, canon)}>'
     return f'{type(v).__name__}:{v!r}'
 
 
@@ -76,12 +122,22 @@ class Wrap:
 GROUPS = {'one': [1, True, 1.0], 'zero': [0, False, 0.0],
           # members of two mixin enums with equal underlying values, and the bare value: all ==-equal
           'strenum': [ImageSets.TRAIN, TextSets.TRAIN, 'train'],
-          'intenum': [Depth.SHALLOW, Width.NARROW, 1]}
+          'intenum': [Depth.SHALLOW, Width.NARROW, 1],
+          # same __name__, different holder class (and the module-level class of that name)
+          'nested-enum': [ModelA.Variant.SMALL, ModelB.Variant.SMALL, Variant.SMALL],
+          # same __qualname__, different module (module-level and nested)
+          'module-enum': [Variant.SMALL, conftasks2.Variant.SMALL, ModelA.Variant.SMALL, conftasks2.ModelA.Variant.SMALL],
+          # same-qualname task classes of two modules, equal parameter values
+          'task-module': [InModule('conftasks', 4), InModule('conftasks2', 4)]}
 SHAPES = ('top', 'tuple', 'dict', 'deep', 'task')
+# which properties' statements a group exercises beyond C06 is decided by the monitor (props/c06x.py), not here
 
 
 def build(shape, v, kind):
-    cls = Describe if kind == 'p' else DescribeJ
+    M = conftasks2 if (isinstance(v, InModule) and v.module == 'conftasks2') else sys.modules[__name__]
+    if isinstance(v, InModule):
+        v = v.value
+    cls = M.Describe if kind == 'p' else M.DescribeJ
     if shape == 'top':
         return cls(value=v)
     if shape == 'tuple':
@@ -90,10 +146,12 @@ def build(shape, v, kind):
         return cls(value={'a': v})
     if shape == 'deep':
         return cls(value={'a': [v, 2], 'b': (v,)})
-    return Wrap(inner=Describe(value=v))
+    return M.Wrap(inner=Describe(value=v))     # the inner task is this module's in every variant
 
 
 def expected(shape, v):
+    if isinstance(v, InModule):
+        return (conftasks2.TAG if v.module == 'conftasks2' else '') + expected(shape, v.value)
     if shape == 'top':
         return reveal(v)
     if shape == 'tuple':
